@@ -484,11 +484,21 @@ class FakeMP:
     Queue = _q.Queue
 
     class Process(_t.Thread):
+        def __init__(self, *a, **k):
+            super().__init__(*a, **k)
+            self.daemon = True
+
+        def join(self, timeout=None):
+            # virtual time: the library's 10 s grace period is not waited out for real
+            super().join(None if timeout is None else min(timeout, 2.0))
+
         def kill(self):
             pass
 
         def close(self):
-            pass
+            if self.is_alive():     # as multiprocessing.Process.close() does
+                raise ValueError('Cannot close a process while it is still running. '
+                                 'You should first call join() or terminate().')
 
 
 @contextlib.contextmanager
